@@ -230,6 +230,7 @@ Fixpoint iroot_loop (x n : Z) (i : nat) (y : Z) : Z :=
   end.
 
 Definition iroot (x n : Z) : res (Z * bool) :=
+  if x <? 0 then EValue (* raise ValueError('iroot() of negative number') *) else
   if x =? 0 then Ok (x, true) else
   if n =? 0 then EZeroDiv else
   let k := (bit_length x - 1) / n in
@@ -814,6 +815,7 @@ Theorem iroot_spec : forall x n, 0 < x -> 0 < n ->
   exists y, iroot x n = Ok (y, x =? y ^ n) /\ 0 < y /\ y ^ n <= x < (y + 1) ^ n.
 Proof.
   intros x n Hx Hn. unfold iroot. cbv zeta.
+  destruct (x <? 0) eqn:Exn; [apply Z.ltb_lt in Exn; lia|].
   destruct (x =? 0) eqn:Ex; [apply Z.eqb_eq in Ex; lia|].
   destruct (n =? 0) eqn:En; [apply Z.eqb_eq in En; lia|].
   assert (Hbl : bit_length x - 1 = Z.log2 x).
@@ -851,6 +853,12 @@ Qed.
 Theorem iroot_zero : forall n, iroot 0 n = Ok (0, true).
 Proof. intros n. reflexivity. Qed.
 
+Theorem iroot_domain : forall x n, x < 0 -> iroot x n = EValue.
+Proof.
+  intros x n Hx. unfold iroot. destruct (x <? 0) eqn:E; [reflexivity|].
+  apply Z.ltb_ge in E. lia.
+Qed.
+
 
 End PB.
 
@@ -861,6 +869,7 @@ Definition is_square_spec := PB.is_square_spec.
 Definition is_square_neg := PB.is_square_neg.
 Definition iroot_spec := PB.iroot_spec.
 Definition iroot_zero := PB.iroot_zero.
+Definition iroot_domain := PB.iroot_domain.
 
 Module PC.
 Local Open Scope Z_scope.
@@ -2041,9 +2050,10 @@ Lemma iroot_true : forall p e w, 0 < p -> 0 < e -> iroot p e = Ok (w, true) ->
   0 < w /\ p = w ^ e.
 Proof.
   intros p e w Hp He H. unfold iroot in H. cbv zeta in H.
+  destruct (p <? 0) eqn:Epn; [apply Z.ltb_lt in Epn; lia|].
   destruct (p =? 0) eqn:Ep; [apply Z.eqb_eq in Ep; lia|].
   destruct (e =? 0) eqn:Ee; [discriminate|].
-  destruct (_ <? 0) eqn:Ek; [discriminate|].
+  destruct ((bit_length p - 1) / e <? 0) eqn:Ek; [discriminate|].
   destruct (e <? 0) eqn:Ee'; [apply Z.ltb_lt in Ee'; lia|].
   assert (Hgen : forall i y, 0 < y -> 0 < iroot_loop p e i y).
   { induction i as [|i IHi]; intros y Hy; cbn [iroot_loop]; [exact Hy|].
